@@ -336,6 +336,10 @@ fn u2_toggles(players: GatherToggle, rules: GatherToggle, po: u8, ro: u8) {
         } else if ro == 2 {
             // malformed: a reply of the players kind to the rules request
             world().push_data(vec![0x80, 0, 0, 0, 2]);
+        } else if ro == 4 {
+            // malformed body: a valid header, then a key whose UCS-2 length byte announces
+            // five units although one byte follows
+            world().push_data(vec![0x80, 0, 0, 0, 1, 0x85, b'k']);
         } else {
             world().push_timeout();
         }
@@ -426,6 +430,8 @@ c11_u2!(c11_t_unreal2_skip_enforce_rules_wrong_kind, Skip, Enforce, 0, 2);
 c11_u2!(c11_t_unreal2_try_skip_players_wrong_kind, Try, Skip, 2, 0);
 c11_u2!(c11_t_unreal2_skip_try_rules_wrong_kind, Skip, Try, 0, 2);
 c11_u2!(c11_t_unreal2_enforce_skip_players_silent, Enforce, Skip, 1, 0);
+c11_u2!(c11_unreal2_skip_enforce_rules_bad_body, Skip, Enforce, 0, 4);
+c11_u2!(c11_t_unreal2_skip_try_rules_bad_body, Skip, Try, 0, 4);
 c11_u2!(c11_t_unreal2_skip_skip, Skip, Skip, 0, 0);
 c11_u2!(c11_t_unreal2_try_try_valid, Try, Try, 0, 0);
 c11_u2!(c11_t_unreal2_enforce_try_silent_rules, Enforce, Try, 0, 1);
